@@ -80,11 +80,10 @@ func (r *RefSchema) GetObject() Object {
 
 func (r *RefSchema) ReflectedType() reflect.Type {
 	if r.referencedObjectCache == nil {
-		panic(BadArgumentError{
-			Message: fmt.Sprintf(
-				"ref type not linked to its object with ID %q in ReflectedType; scope with namespace %q was not applied successfully",
-				r.IDValue, r.ObjectNamespace),
-		})
+		// Not linked (yet): the type is unknown. Unserialize, Validate and Serialize report the missing link as an
+		// error; lists and maps of references ask for the type before they get there.
+		var unknown any
+		return reflect.TypeOf(&unknown).Elem()
 	}
 	return r.referencedObjectCache.ReflectedType()
 }
@@ -142,36 +141,39 @@ func (r *RefSchema) ValidateReferences() error {
 
 func (r *RefSchema) Unserialize(data any) (any, error) {
 	if r.referencedObjectCache == nil {
-		panic(BadArgumentError{
+		// An error, not a panic: a schema received as data can refer to a namespace that nobody applied (yet).
+		return nil, BadArgumentError{
 			Message: fmt.Sprintf(
 				"ref type not linked to its object with ID %q in Unserialize; scope with namespace %q was not applied successfully",
 				r.IDValue, r.ObjectNamespace,
 			),
-		})
+		}
 	}
 	return r.referencedObjectCache.Unserialize(data)
 }
 
 func (r *RefSchema) Validate(data any) error {
 	if r.referencedObjectCache == nil {
-		panic(BadArgumentError{
+		// An error, not a panic: a schema received as data can refer to a namespace that nobody applied (yet).
+		return BadArgumentError{
 			Message: fmt.Sprintf(
 				"ref type not linked to its object with ID %q in Validate; scope with namespace %q was not applied successfully",
 				r.IDValue, r.ObjectNamespace,
 			),
-		})
+		}
 	}
 	return r.referencedObjectCache.Validate(data)
 }
 
 func (r *RefSchema) ValidateCompatibility(typeOrData any) error {
 	if r.referencedObjectCache == nil {
-		panic(BadArgumentError{
+		// An error, not a panic: a schema received as data can refer to a namespace that nobody applied (yet).
+		return BadArgumentError{
 			Message: fmt.Sprintf(
 				"ref type not linked to its object with ID %q in ValidateCompatibility; scope with namespace %q was not applied successfully",
 				r.IDValue, r.ObjectNamespace,
 			),
-		})
+		}
 	}
 	schemaType, ok := typeOrData.(*RefSchema)
 	if ok {
@@ -182,12 +184,13 @@ func (r *RefSchema) ValidateCompatibility(typeOrData any) error {
 
 func (r *RefSchema) Serialize(data any) (any, error) {
 	if r.referencedObjectCache == nil {
-		panic(BadArgumentError{
+		// An error, not a panic: a schema received as data can refer to a namespace that nobody applied (yet).
+		return nil, BadArgumentError{
 			Message: fmt.Sprintf(
 				"ref type not linked to its object with ID %q in Serialize; scope with namespace %q was not applied successfully",
 				r.IDValue, r.ObjectNamespace,
 			),
-		})
+		}
 	}
 	return r.referencedObjectCache.Serialize(data)
 }
